@@ -1200,7 +1200,21 @@ impl Stdfs {
         let copy_into = Stdfs::is_dir(&dst_root);
 
         let dst_path = if copy_into { dst_root.mash(src_path.base()?) } else { dst_root.clone() };
-        fs::rename(src_path, dst_path)?;
+
+        // A relative link would point somewhere else from its new location, remember what it points to
+        let target = match fs::symlink_metadata(&src_path) {
+            Ok(meta) if meta.file_type().is_symlink() && src_path.dir()? != dst_path.dir()? => {
+                Some(StdfsEntry::from(&src_path)?.alt_buf())
+            },
+            _ => None,
+        };
+        fs::rename(src_path, &dst_path)?;
+
+        // Recreate the moved link so that it still points to the same target
+        if let Some(target) = target {
+            fs::remove_file(&dst_path)?;
+            Stdfs::symlink(&dst_path, target)?;
+        }
         Ok(())
     }
 
